@@ -306,7 +306,7 @@ def Expr.marginalize (e : Expr) (ranges : List Var) : Expr := sumSafe0 e (ranges
 def Expr.normalizeMarginalize (e : Expr) (ranges : List Var) : Except Err Expr :=
   e.div (e.marginalize ranges)
 
-/-- `e.conditional(ranges)`: both overloads (`Probability.conditional`, and — after `fix:` f502ca2 —
+/-- `e.conditional(ranges)`: both overloads (`Probability.conditional`, and — after `fix:` a54a0f5 —
 `Expression.conditional`) skip `Intervention` objects, i.e. the subscripts `_iter_variables` yields; the ranges of inner
 `Sum`s are still collected (what remains of finding F11) -/
 def Expr.conditional (e : Expr) (ranges : List Var) : Except Err Expr :=
